@@ -14,8 +14,8 @@ from . import c05, c07, defects
 BATCH = 200
 
 
-def observe(cli, types, external=(), config=None):
-    files = c05.build_batch(types, external=external)
+def observe(cli, types, external=(), config=None, files=None):
+    files = files or c05.build_batch(types, external=external)
     res = {}
     for mode in ("none", "zod"):
         g = proj.generate(cli, files, mode=mode, tag="c10", config=config)
@@ -94,7 +94,13 @@ MAPPED = {"DateTime<Utc>": "string", "Uuid": "string", "PathBuf": "string", "Dec
 def run_batch(a):
     cli, types, values = a[:3]
     mapped = len(a) > 3 and a[3]
-    r = observe(cli, types, external=tuple(MAPPED) if mapped else (), config={"type_mappings": MAPPED} if mapped else None)
+    defined = a[4] if len(a) > 4 else ()
+    files = None
+    if defined:
+        # some mapped names are project types (with a field type nothing else mentions): both modes must leave out the same names
+        from . import c18
+        files = c18.build(types, defined)
+    r = observe(cli, types, external=tuple(MAPPED) if mapped else (), config={"type_mappings": MAPPED} if mapped else None, files=files)
     if "inconclusive" in r or "blocked" in r:
         return r
     out = {"names_none": r["none"]["decl"], "names_zod": r["zod"]["decl"], "params_none": r["none"]["params"], "params_zod": r["zod"]["params"],
@@ -201,6 +207,8 @@ def run(tier):
     mtypes = [(len(types) + k, t) for k, t in enumerate(mtypes)]
     tmap.update(dict(mtypes))
     jobs.append((cli, mtypes, {}, True))
+    for defined in (("Uuid",), ("Decimal", "PathBuf"), tuple(n for n in MAPPED if "<" not in n)):
+        jobs.append((cli, mtypes, {}, True, defined))
     res = common.pmap(run_batch, jobs)
     for (job, r) in zip(jobs, res):
         if "inconclusive" in r:
@@ -218,10 +226,13 @@ def run(tier):
         v.count("serde_values_checked", r["values_checked"])
         v.count("top_level_none_sent_as_omitted_key", r.get("option_null_omitted", 0))
         is_mapped = len(job) > 3 and job[3]
-        wit = lambda i: proj.witness_of(c05.build_batch([(i, tmap[i])], external=tuple(MAPPED) if is_mapped else ()), "both",
+        defined = job[4] if len(job) > 4 else ()
+        if defined:
+            v.count("name_sets_compared_with_project_defined_mapped_types")
+        wit = lambda i: proj.witness_of(c18.build(job[1], defined) if defined else c05.build_batch([(i, tmap[i])], external=tuple(MAPPED) if is_mapped else ()), "both",
                                         config={"type_mappings": MAPPED} if is_mapped else None, extra={"type": rg.rust(tmap[i])})
         if r["names_none"] != r["names_zod"]:
-            v.violation("C10 type-name-sets-differ", "none declares %s, zod declares %s" % (sorted(set(r["names_none"]) - set(r["names_zod"])), sorted(set(r["names_zod"]) - set(r["names_none"]))), wit(job[1][0][0]))
+            v.violation("C10 type-name-sets-differ" + (" mapped-project-types" if defined else ""), "none declares %s, zod declares %s" % (sorted(set(r["names_none"]) - set(r["names_zod"])), sorted(set(r["names_zod"]) - set(r["names_none"]))), wit(job[1][0][0]))
         if r["params_none"] != r["params_zod"]:
             v.violation("C10 params-name-sets-differ", "only none: %s; only zod: %s" % (sorted(set(r["params_none"]) - set(r["params_zod"]))[:5], sorted(set(r["params_zod"]) - set(r["params_none"]))[:5]), wit(job[1][0][0]))
         for (i, site, n, z) in r["diff"]:
